@@ -9,11 +9,14 @@ import (
 	"fmt"
 	"os"
 	"path/filepath"
+	"regexp"
 	"sort"
 	"strconv"
 	"strings"
 	"time"
 )
+
+var reSiteOrd = regexp.MustCompile(`@\d+`)
 
 type PropConfig struct {
 	ID          string   `json:"id"`
@@ -356,9 +359,23 @@ func checkMain(args []string) {
 	var clauseNames []string
 	for _, n := range aggOrder {
 		k := aggs[n].kind
-		if k == "ensures" || k == "inv-entry" || k == "inv-preserved" || k == "decreases" || k == "lemma" || k == "call-requires" || k == "protocol" || k == "typeinv" || k == "captures" || k == "globalinv" {
+		if k == "ensures" || k == "inv-entry" || k == "inv-preserved" || k == "decreases" || k == "lemma" || k == "call-requires" || k == "protocol" || k == "typeinv" || k == "captures" || k == "globalinv" || k == "scope" {
 			clauseNames = append(clauseNames, n)
 		}
+	}
+	// site ordinals (@N) depend on how many call sites precede: pins keep the stem only, so that adding or
+	// removing one call site of a kind is not reported as drift
+	{
+		seen := map[string]bool{}
+		var stems []string
+		for _, n := range clauseNames {
+			st := reSiteOrd.ReplaceAllString(n, "@")
+			if !seen[st] {
+				seen[st] = true
+				stems = append(stems, st)
+			}
+		}
+		clauseNames = stems
 	}
 	sort.Strings(clauseNames)
 	if *pin {
@@ -400,6 +417,7 @@ func checkMain(args []string) {
 			have[n] = true
 		}
 		for _, w := range want {
+			w = reSiteOrd.ReplaceAllString(w, "@")
 			if !have[w] {
 				// an obligation that existed when the contracts were pinned is no longer generated
 				if _, failed := aggs[w]; !failed {
